@@ -214,7 +214,7 @@ def r17_1(ctx, rep, roles, sel):
     rep.floor("selection-call-sites", len(callers), 1)
     for cs in callers:
         eng = sym.Engine(fx, inline_only=set(getattr(fx, "new_helpers", ())))
-        rows = eng.table(cs.caller)
+        rows = eng.table(cs.real_caller)
         done = False
         for row in rows:
             for e in row.calls():
